@@ -319,7 +319,7 @@ pub fn apply(w: &mut World, act: Act) {
             let ago: u64 = if k == 2 { 1_000_000 } else { 1 };
             let expired = k != 3 && (interval == 0 || (interval != u32::MAX && ago > interval as u64));
             // k == 4: the resumed connection announces a Maximum Packet Size (8) below what is re-sent
-            let o = ResumeOpts { secs_ago: ago, sei: w.sei, receive_max: if k == 1 { Some(2) } else { None }, max_packet: if k == 4 { Some(8) } else { None }, expect_expired: expired, plain: k == 3, ..Default::default() };
+            let o = ResumeOpts { secs_ago: ago, sei: w.sei, receive_max: if k == 1 { Some(2) } else { None }, max_packet: if k == 4 { Some(8) } else { None }, expect_expired: expired, plain: k == 3, trailing: ((w.reconnects as usize + w.m.len()) % 3).min(2) as u8, ..Default::default() };
             w.resume_full(o);
         }
         Act::Start(k) => {
